@@ -36,6 +36,7 @@ class TreeSpace(statespace.Space):
   def apply(self, w, op, rec, trace):
     before = st.all_nodes(w['roots'])
     ckind = st.container_kind(w, op)
+    w['offered'] = []
     r = st.apply_op(w, op)
     rec.stat(f'{op[1]}:{"ok" if r[0] == "ok" else r[1]}')
     after = st.all_nodes(w['roots'])
@@ -44,6 +45,13 @@ class TreeSpace(statespace.Space):
       gone.append(r[1])
     w['detached'] = (gone + w['detached'])[:2]
     bad = st.check_topology(w['roots'], gone)
+    # a fresh value handed to the operation is either stored (as that very node) or left alone: if it is not in the tree it
+    # must not report a node of the tree as its parent
+    for v in w.get('offered', []):
+      if id(v) not in after and v.sym_parent is not None and id(v.sym_parent) in after:
+        bad.append(('offered-value-not-stored-but-parented', f'the value handed to the operation is not in the tree (a copy is, or the '
+                    f'write was refused) yet reports {type(v.sym_parent).__name__}@{v.sym_parent.sym_path!r} as its parent (sym_path={v.sym_path!r})'))
+        break
     if bad:
       sigs = set()
       for clause, text in bad:
